@@ -64,6 +64,8 @@ type pegObs struct {
 	nodeN  int
 	nodeH  uint64
 	millis int64
+	// parseMillis: wall-clock of p.Init(); p.Parse() alone (without the harness's own reflection walk)
+	parseMillis int64
 }
 
 // observePeg runs the generated parser alone: p.Init(); p.Parse(); tokens; AST().
@@ -78,7 +80,9 @@ func observePeg(ri *ruleIndex, s string) (o pegObs) {
 	}()
 	p := &parser.ThriftIDL{Buffer: s}
 	p.Init()
-	if err := p.Parse(); err != nil {
+	err := p.Parse()
+	o.parseMillis = time.Since(t0).Milliseconds()
+	if err != nil {
 		return
 	}
 	o.ok = true
